@@ -119,6 +119,7 @@ def report(pid, tier, seed, mod, results, wall):
     names_seen = dict()
     bounded_params = dict()
     bounded_parts = list()
+    canaries = dict()
     for res in results:
         fam = res['family']
         if res.get('crash'):
@@ -145,10 +146,14 @@ def report(pid, tier, seed, mod, results, wall):
             solver_max = max(solver_max, rec.get('seconds', 0.0))
             if rec['kind'] == 'canary':
                 n_canary += 1
-                if st == 'canary-proved' and '(info)' not in name:
-                    vacuous.append((fam, name, 'canary proved'))
-                elif st == 'canary-unknown' and '(info)' not in name:
-                    undecided.append((fam, name))
+                if '(info)' not in name:
+                    # a canary must be refuted on at least one path of its family
+                    key = (fam, name)
+                    cur = canaries.get(key)
+                    rank = {'canary-refuted': 2, 'canary-unknown': 1,
+                            'canary-proved': 0}[st]
+                    if cur is None or rank > cur:
+                        canaries[key] = rank
                 continue
             if st == 'refusal-allowed':
                 n_refusal += 1
@@ -185,6 +190,11 @@ def report(pid, tier, seed, mod, results, wall):
                     violations.append((fam, rec))
             elif st == 'undecided':
                 undecided.append((fam, name))
+    for (fam, name), rank in canaries.items():
+        if rank == 0:
+            vacuous.append((fam, name, 'canary proved'))
+        elif rank == 1:
+            undecided.append((fam, name))
     for name, ok in nonvac.items():
         if not ok:
             vacuous.append(('*', name, 'assumptions never satisfiable'))
@@ -279,10 +289,10 @@ def report(pid, tier, seed, mod, results, wall):
           f'bounded-evals={n_bounded_eval} canaries={n_canary} '
           f'violations={len(violations)} known={len(seen_known)} '
           f'undecided={len(undecided)} wall={wall:.1f}s')
-    if crashes or vacuous:
-        return 3
     if violations:
         return 1
+    if crashes or vacuous:
+        return 3
     if undecided:
         return 2
     return 0
